@@ -256,6 +256,7 @@ type c05World struct {
 	txReal    map[int]string
 	txOwner   map[int]int
 	vcTx      map[int]int
+	vcAt      map[int]int64 // model time at which the push transaction of that cookie value was started
 	chalBytes map[int][]byte
 	chalOwner map[int]int
 	chalAt    map[int]int64
@@ -341,6 +342,7 @@ func (w *c05World) reset() {
 	}
 	w.cookies, w.tokens, w.fresh, w.nowM = nil, nil, 0, 0
 	w.txReal, w.txOwner, w.vcTx = map[int]string{}, map[int]int{}, map[int]int{}
+	w.vcAt = map[int]int64{}
 	w.chalBytes, w.chalOwner, w.chalAt, w.curChal = map[int][]byte{}, map[int]int{}, map[int]int64{}, map[int]int{}
 	w.otpVal, w.otpOwner, w.otpExp, w.curOtp = map[int]string{}, map[int]int{}, map[int]int64{}, map[int]int{}
 	w.proved, w.accepted = map[[2]int]bool{}, map[string]bool{}
@@ -465,6 +467,10 @@ func (w *c05World) tick(dt int64) {
 		}
 	}
 	st.Mutex.Lock()
+	for v, e := range st.vipPushCookie {
+		e.ExpiresAt = e.ExpiresAt.Add(-d)
+		st.vipPushCookie[v] = e
+	}
 	for u, la := range st.localAuthData {
 		la.ExpiresAt = la.ExpiresAt.Add(-d)
 		if la.U2fAuthChallenge != nil {
@@ -787,6 +793,7 @@ func (w *c05World) pushStart(cs []int, vc int) {
 		w.txReal[w.fresh] = last
 		w.txOwner[w.fresh] = c05UserIdx[lastUser]
 		w.vcTx[vc] = w.fresh
+		w.vcAt[vc] = w.nowM
 		w.fresh++
 	} else if ok != started {
 		w.res.hit(verifHit{Key: "C05:harness:pushstart", Oracle: "harness", What: fmt.Sprintf("push start answered %d, transaction started=%v", rr.Code, started), Case: w.human})
@@ -813,7 +820,7 @@ func (w *c05World) poll(cs []int, vc int) {
 	su, _ := w.attach(req, cs)
 	req.AddCookie(&http.Cookie{Name: vipTransactionCookieName, Value: fmt.Sprintf("vc%d", vc)})
 	// the service confirms now that the user it sent the push to has approved
-	if tx, ok := w.vcTx[vc]; ok && su != 0 && w.txOwner[tx] == su {
+	if tx, ok := w.vcTx[vc]; ok && su != 0 && w.txOwner[tx] == su && w.nowM < w.vcAt[vc]+int64(maxAgeSecondsVIPCookie) {
 		w.vip.mu.Lock()
 		approved := w.vip.approved[w.txReal[tx]]
 		w.vip.mu.Unlock()
@@ -822,7 +829,12 @@ func (w *c05World) poll(cs []int, vc int) {
 		}
 	}
 	rr := w.serve(req)
-	w.record("Poll", fmt.Sprintf("Poll %s %d", c05CoqList(cs), vc), fmt.Sprintf("Poll%v(vc%d)", cs, vc), su, rr.Code < 400, w.emitted(rr))
+	em := w.emitted(rr)
+	if at, ok := w.vcAt[vc]; ok && len(em) > 0 && w.nowM >= at+int64(maxAgeSecondsVIPCookie) {
+		w.res.hit(verifHit{Key: "C05:expired:Poll", Oracle: "an expired one-time value never works", Kind: "history",
+			What: fmt.Sprintf("a push transaction started %d s ago (lifetime %d s) still raised the level", w.nowM-at, int64(maxAgeSecondsVIPCookie)), Case: append(append([]string{}, w.human...), fmt.Sprintf("Poll%v(vc%d)", cs, vc))})
+	}
+	w.record("Poll", fmt.Sprintf("Poll %s %d", c05CoqList(cs), vc), fmt.Sprintf("Poll%v(vc%d)", cs, vc), su, rr.Code < 400, em)
 }
 
 // owner = 0: a code that matches nothing
@@ -1401,6 +1413,20 @@ func (w *c05World) targeted() []func() {
 			w.issueOtp(1, 3600)
 			w.issueOtp(2, 90000)
 		},
+		func() { // a push transaction lives two minutes: polled before and after, started again afterwards
+			w.pushStart([]int{0}, 0)
+			w.approve(w.vcTx[0])
+			w.tick(90)
+			w.poll([]int{0}, 0)
+			w.tick(30)
+			w.poll([]int{0}, 0)
+			w.tick(180)
+			w.poll([]int{0}, 0)
+			w.pushStart([]int{0}, 0) // the cookie value is free again
+			w.poll([]int{0}, 0)
+			w.approve(w.vcTx[0])
+			w.poll([]int{0}, 0)
+		},
 		func() { // two sessions of one user attached together: which one comes back, with which factors
 			w.totp([]int{0}, 1, w.modelStep()) // cookie 2: alice, password+TOTP, old session
 			w.tick(3600)
@@ -1621,7 +1647,7 @@ func TestVerif_C05(t *testing.T) {
 	}
 	sb.WriteString(fmt.Sprintf("Definition webui_mask : N := %d.\n", webui))
 	sb.WriteString("Definition cfg_of (i : N) : config := fixed (if i =? 0 then devs0 else devs1) webui_mask.\n")
-	sb.WriteString(fmt.Sprintf("(* maxAgeSecondsAuthCookie of the tree must be the session lifetime the theorems are stated with *)\nDefinition life_ok : bool := (%d =? cookie_life (cfg_of 0))%%Z.\n", int64(maxAgeSecondsAuthCookie)))
+	sb.WriteString(fmt.Sprintf("(* maxAgeSecondsAuthCookie / maxAgeSecondsVIPCookie of the tree must be the lifetimes the theorems are stated with *)\nDefinition life_ok : bool := ((%d =? cookie_life (cfg_of 0)) && (%d =? vip_life (cfg_of 0)))%%Z.\n", int64(maxAgeSecondsAuthCookie), int64(maxAgeSecondsVIPCookie)))
 	sb.WriteString("Definition bad (h : N * list op * list (bool * option (N * N * Z * Z))) : bool :=\n  let '(i, ops, obs) := h in negb (life_ok && match obs_agree (run_obs (cfg_of i) init ops) obs 0 with [] => true | _ => false end).\n")
 	sb.WriteString("Definition cases : list (N * list op * list (bool * option (N * N * Z * Z))) := [\n")
 	var idx strings.Builder
